@@ -97,7 +97,10 @@ type Op struct {
 	// generator can know it (elements kept on accounts no other client touches)
 	Expect string `json:"expect,omitempty"`
 
-	From    string   `json:"from,omitempty"` // import: source ledger whose export is fed in
+	From       string `json:"from,omitempty"`        // import: source ledger whose export is fed in
+	ImportFrom int    `json:"import_from,omitempty"` // import only logs with id >= this
+	ImportTo   int    `json:"import_to,omitempty"`   // import only logs with id <= this
+	Remainder  bool   `json:"remainder,omitempty"`   // import the logs the destination does not have yet
 	Raw     *Request `json:"raw,omitempty"`
 	Chunked int      `json:"chunked,omitempty"`
 }
@@ -335,7 +338,7 @@ func (o *Op) Render(exports map[string]string) Request {
 		r.Path = prefix + "/logs/export"
 	case KImport:
 		r.Path = prefix + "/logs/import"
-		r.Body = exports[o.From]
+		r.Body = filterExport(exports[o.From], o.ImportFrom, o.ImportTo)
 		if r.Chunked == 0 {
 			r.Chunked = 1 << 20
 		}
